@@ -81,6 +81,15 @@ OPTIONS_AFFECTING_CACHE: Final = (
         "untyped_calls_exclude",
         "enable_incomplete_feature",
         "install_types",
+        # These change which messages are generated, or their (already rendered) text
+        # that is stored in the cache and replayed for unchanged modules.
+        "deprecated_calls_exclude",
+        "many_errors_threshold",
+        "semantic_analysis_only",
+        "show_absolute_path",
+        "show_error_code_links",
+        "show_error_context",
+        "warn_redundant_casts",
     }
 ) - {"debug_cache"}
 
